@@ -24,6 +24,7 @@ PRELUDE = (
     'vtab = tab(2, 5); vtabs = tab(2, "x"); vtab2 = tab(2, tab(2, 1)); vtabr = tab(2, tup(1, "a")); vntab = tab(); vetab = tab(0, 1); '
     'vu = null; '
     'if false then uq = 5; us = "a"; ut = tab(1, 1); ur = tup(1, "a"); ub = raw("b"); end if; '
+    'fa = 5; forall fa in tab(2, "x") loop nop; end loop; '
     'function f1(x) return undefined is begin return x; end; '
     'function fnull() return integer is begin return int(); end; '
 )
@@ -46,14 +47,17 @@ V_FULL = [
     'tup(1,"a")', "tup()", "vr", "vnr", "tup(int(), str())",
     # tables
     "tab(2,1)", 'tab(0,"")', "tab()", "vtab", "vtabs", "vtab2", "vtabr", "vntab", "vetab", "tab(1, num())",
-    # untyped null, function results
-    "null", "vu", "f1(1)", "fnull()",
+    # untyped null, function results (f1 returns `undefined`: an opaque static type over a concrete run-time value)
+    "null", "vu", "f1(1)", "fnull()", "f1(ii)", "f1(1.5)", 'f1("a")', "f1(vtab)", "f1(vr)", "f1(true)", 'f1(raw("a"))',
+    # a variable that a forall left behind: null, and typed by the loop
+    "fa",
     # variables that exist (compiled) but were never assigned
     "uq", "us", "ut", "ur", "ub",
 ]
 V_QUICK = ["0", "-1", "256", "vimax", "vimin", "vni", "1.5", "vinf", "vnan", "vnd", '""', '"a"', '"12"', "vns", "vnul",
            'raw("a")', 'raw("12")', "vnb", "vb", "true", "vnt", "vc", "vnc", "vr", "vnr", "tup()", "vtab", "vtabs", "vtab2", "vtabr", "vntab", "vetab",
-           "null", "vu", "fnull()", "int()", "num()", "str()", "raw()", "bool()", "tab()", "2", "vs", "uq", "us", "ut", "ur"]
+           "null", "vu", "fnull()", "int()", "num()", "str()", "raw()", "bool()", "tab()", "2", "vs", "uq", "us", "ut", "ur",
+           "f1(ii)", "f1(1.5)", 'f1("a")', "fa"]
 V_SMALL = ["0", "-1", "vimax", "vimin", "vni", "1.5", "vnan", "vnd", '""', '"a"', "vns", "vnul", 'raw("a")', "vnb", "vnt", "vr", "vtab", "vntab",
            "null", "vu", "2", "vs", "uq", "us"]
 V_SIZE = ["null", "int()", "vni", "-1", "0", "1", "2", "65536", "vi", "1.5", '"a"', "vnd"]   # capped: allocation exhaustion is out of scope
